@@ -4,7 +4,9 @@ from bounded import emission, graphprops
 
 PROP = "C10"
 LEVEL = "exploration"
-ENGINE = "bounded"
+ENGINE = "pyvc+bounded"
+HARNESS_MODULES = ['contracts.c04_graph_plumbing']
+EXTRA_HARNESSES = [('C04', 'graph_add_edge')]
 MOD = "props.C10"
 instantiate = graphprops.inst_C10
 descs = graphprops.descs_C10
@@ -23,10 +25,10 @@ RULE = ("emission contract evaluated on the real active_edges_connected_crossabl
         "7x5 / 9x6, frames up to 3x3 / 4x3) with structured assignments needing deep rank certificates (all-active paths, snakes, "
         "border-rooted zig-zag diagonal chains, perimeter loops) and their single-variable mutations; plus history sequences (all "
         "instances again in one process, forwards/backwards, each grid followed by its transpose); distinct = distinct instances")
-TECHNIQUE = ("bounded stand-in for a contract on the real emitter (precondition / postcondition against a graph "
+TECHNIQUE = ("pyvc (proved, all sizes): auxiliary graph of the crossable constraint: 3 nodes per lattice point + 1 per segment, adjacency of each segment to the plain and matching pass-through halves of its end points, aligned activity list (structural); Graph.add_edge; the encoder itself: bounded stand-in for a contract on the real emitter (precondition / postcondition against a graph "
              "predicate / frame), decided exhaustively inside the stated scope with z3 over the reference semantics "
              "specs/den.py; never counted as proved")
-LEVEL_TEXT = ("exploration (bounded-exhaustive): the encoder's contract quantifies over all graphs and needs an induction "
+LEVEL_TEXT = ("exploration: the integer/list plumbing around the encoder is proved by pyvc (see technique); the encoder (bounded-exhaustive): the encoder's contract quantifies over all graphs and needs an induction "
               "over graphs about rank certificates that no installed deductive tool can do on the Python text; the same "
               "contract is therefore decided for every small structure and ALL assignments of the caller's variables")
 LEVEL_NOTE = ("trusted: specs/den.py, specs/graphpred.py, z3 on the per-pattern queries, documented operand layout of "
